@@ -386,6 +386,22 @@ def F38(fil):
                                                    f"per gulp = {out}, expected length {length}")
 
 
+def F39(fil):
+    k = 10
+    f_k = fil.header.fch1 + k * fil.header.foff
+    blk = fil.read_block(0, 8, fch1=f_k)
+    out = outcome(lambda: fil.read_block(0, 8, fch1=f_k, nchans=fil.header.nchans).data.shape[0])
+    off = fil.read_block(0, 8, fch1=f_k + 0.3 * fil.header.foff, nchans=2)
+    bad = []
+    if blk.header.nchans != blk.data.shape[0]:
+        bad.append(f"fch1 of channel {k}, default nchans: header nchans {blk.header.nchans}, {blk.data.shape[0]} rows")
+    if out[0] != "exc":
+        bad.append(f"request reaching past the band accepted ({out[1]} rows for nchans={fil.header.nchans})")
+    if abs(off.header.fch1 - f_k) > 1e-9:
+        bad.append(f"request 0.3 channels off the grid labelled {off.header.fch1}, rows are channels {k}.. centred on {f_k}")
+    return bool(bad), "; ".join(bad) or "sub-band requests give as many rows as the header declares, labelled with the channel centres"
+
+
 ALL = {k: v for k, v in globals().items() if k.startswith("F") and k[1:].isdigit()}
 
 
